@@ -240,16 +240,20 @@ def run_case(case):
             if sid is not None:
                 create_spaces(sim, rm, sid)
             if k == "set_value":
-                sim.assign(target, op[4]); apply_ref(rm, op)
+                gone = sim.assign(target, op[4]); apply_ref(rm, op)
             elif k == "clear_at":
-                sim.discard(target); apply_ref(rm, op)
+                gone = sim.discard(target); apply_ref(rm, op)
             elif k == "clear":
-                sim.discard_many([e for e in sim.held if e[0] == sid and e[1] == op[2] and e not in sim.inputs])
+                gone = sim.discard_many([e for e in sim.held if e[0] == sid and e[1] == op[2] and e not in sim.inputs])
             elif k == "clear_all":
-                sim.discard_many([e for e in sim.held if e[0] == sid and e[1] == op[2]]); apply_ref(rm, op)
+                gone = sim.discard_many([e for e in sim.held if e[0] == sid and e[1] == op[2]]); apply_ref(rm, op)
             else:
                 path = tuple(op[1])
-                sim.discard_many([e for e in sim.held if tuple(e[0][:len(path)]) == path]); apply_ref(rm, op)
+                gone = sim.discard_many([e for e in sim.held if tuple(e[0][:len(path)]) == path]); apply_ref(rm, op)
+            # (a value assigned inside an instance that the edit discarded went with the instance: see C06)
+            for g in gone:
+                if g[1] is not None and not all(isinstance(x, str) for x in g[0]) and not (k == "set_value" and g == target):
+                    rm.inputs.get((g[0], g[1]), {}).pop(g[2], None)
             disturbed = True
         else:
             continue
